@@ -243,6 +243,19 @@ PRELUDE = ('class A { init() { self.x = 1; self.b = self; } m() { return self; }
            'let e = nil; let s = "s"; let size = 1; let capacity = 1; let outer = 1; let a0 = 0; let a1 = 1; let a2 = 2; let K = A; let T = A; let _ = 0;\n')
 
 
+# how a diagnostic starts on stderr is learnt from the VM (a text that is certainly wrong), not assumed
+DIAG_MARK = ["error:"]
+
+
+def learn_diag_mark(binary):
+    r = vlib.run_batch(binary, [{"id": "probe", "files": {"/v/main.lay": "let = ;\n"}, "main": "/v/main.lay"}], per_case_timeout=30)["probe"]
+    err = r.get("stderr", "").lstrip()
+    if r.get("status") == "compile_error" and err:
+        first = err.split(None, 1)[0]
+        if first:
+            DIAG_MARK[0] = first
+
+
 def events_of_run(case_id, r):
     """one file run -> trace events for Frontend.tla"""
     ev = [{"ev": "start", "session": False, "case": case_id}]
@@ -250,7 +263,9 @@ def events_of_run(case_id, r):
     if st not in ("ok", "runtime_error", "compile_error"):
         return ev + [{"ev": "submit", "case": case_id}, {"ev": "fail", "how": str(st), "case": case_id}]
     ev.append({"ev": "submit", "case": case_id})
-    k = sum(1 for l in r.get("stderr", "").splitlines() if l.startswith("error:"))
+    k = sum(1 for l in r.get("stderr", "").splitlines() if l.startswith(DIAG_MARK[0]))
+    if st == "compile_error" and k == 0 and r.get("stderr", "").strip():
+        k = 1            # something was reported, in a form the probe did not teach us: still a diagnostic
     ev += [{"ev": "diag", "case": case_id}] * k
     printed = bool(r.get("stdout"))
     if st == "compile_error":
@@ -269,6 +284,7 @@ def run(pid, tier, replay=None):
     v = vlib.Verdict(pid, tier)
     rnd = random.Random(vlib.seed() * 977 + 15)
     binary = vlib.build_harness()
+    learn_diag_mark(binary)
     inputs = []       # (id, text)
     if replay:
         rp = json.load(open(replay))["replay"]
@@ -413,7 +429,7 @@ def run(pid, tier, replay=None):
     v.notes["file_runs_validated"] = runs
     v.notes["sessions_validated"] = len(sessions)
     v.notes["trace_events"] = len(trace)
-    v.assumptions = ["diagnostics are the blocks starting with 'error:' on stderr", "nesting is exercised up to depth 500 (700 in thorough) on an 8 MiB host stack",
+    v.assumptions = [f"diagnostics are the blocks on stderr that start like the one reported for `let = ;` ({DIAG_MARK[0]!r})", "nesting is exercised up to depth 500 (700 in thorough) on an 8 MiB host stack",
                      "texts that compile are not run here (whether an accepted program can crash the runtime is C16)"]
     for iid, t in inputs[:2] + inputs[len(inputs) // 2: len(inputs) // 2 + 2] + inputs[-2:]:
         v.cov["samples"].append({"id": iid, "text": t[:300]})
